@@ -11,8 +11,9 @@ EXCLUDE = ["window.c"]          # #included by the harness so that the final dum
 LEVEL = "proof"      # evidence category; PARTIAL overall, see ASSUMPTIONS[0] and notes/C08.md
 CASE_TIMEOUT = 0.5
 RULE = ("case = one script line.  W: window-tree / restack-queue lifecycle script (new with every flag combination at "
-        "depth <= 3, ref/unref/close in any order, restack requests left pending, show/hide/focus, flush, key and "
-        "mouse events whose handlers run further calls); T: a copy-out call (get_cell_text / get_span / "
+        "depth <= 3, ref/unref/close in any order, restack requests left pending, show/hide/focus, flush, set_geometry, "
+        "reposition, a terminal resize, window pens and scrollrect with a pen, key and mouse events and EXPOSE / FOCUS / "
+        "GEOMCHANGE bindings (focus_child_notify included) whose handlers run further calls); T: a copy-out call (get_cell_text / get_span / "
         "mockterm get_display_text) into malloc(len) for every len from 0 to two beyond the text; O: lifecycle script "
         "over pens, strings, render buffers, terminals (mock and xterm) and the toplevel instance; R: the pen stack of a render "
         "buffer (setpen NULL / empty / with attributes at every depth of save and savepen frames, restore, whole-line "
@@ -26,13 +27,21 @@ RULE = ("case = one script line.  W: window-tree / restack-queue lifecycle scrip
         "distinct = (script kind, verdict, set of call kinds, #windows, handlers present / copy-out kind x fit class).")
 ASSUMPTIONS = [
     "PARTIAL by nature: memory safety of the C is a run-time fact observed by the sanitizers on the explored histories; "
-    "the theorems are about the heap-level ownership model of the repaired window.c: for event-free histories with the "
-    "predictive client discipline wf_client (the oracle of this check); for histories with key and mouse events (the whole "
-    "drag state machine, re-entrant handlers making any calls) with the discipline wf_trace of LifeSpecEv.v, which reads "
+    "the theorems are about the heap-level ownership model of the repaired window.c: for histories of calls that dispatch "
+    "nothing with the predictive client discipline wf_client (the oracle of this check); for histories with dispatch -- key "
+    "and mouse events (the whole drag state machine), flush with EXPOSE handlers, take_focus with FOCUS handlers, "
+    "set_geometry / reposition / terminal resize with GEOMCHANGE handlers, re-entrant handlers making any calls -- with "
+    "the discipline wf_trace of LifeSpecEv.v, which reads "
     "the library's frame references off the model's trace -- that wf_client accepts only traces wf_trace accepts is "
     "proved for traces without frames and tested by the oracle on every case; more fuel never changes a verdict "
     "(proved), an explicit fuel bound for event-free histories is not proved, with events none exists (proved)",
-    "all windows of a script have the same geometry (the pointer structure, not the geometry, is explored)",
+    "all windows of a script have their top-left corner at their parent's, are 8 columns wide and 3 or 4 lines high (the "
+    "root: 3 or more): the pointer structure, not the geometry, is explored; the damage of the root is then always one "
+    "rectangle that meets every window, so that one flush runs _do_expose over the whole visible tree once (scrollrect "
+    "scrolls the two top lines at full width; reposition moves a window one line up while its GEOMCHANGE handlers run and "
+    "is used at top level and in key / mouse handlers only; after a terminal resize the harness exposes the whole root)",
+    "a handler of the kinds EXPOSE / FOCUS / GEOMCHANGE makes a call that dispatches its own kind again only after it has "
+    "unbound itself (the harness cuts a handler's nesting off at depth 6, the model has no such cut-off)",
     "a single root window per script; the harness holds the only client reference to the terminal",
     "R cases: text and erase calls cover a whole line, so that a line is a single span (span splitting, masks, clips "
     "and translation belong to C03/C04); pens / frames / strings of a buffer are counted as live blocks of their sizes",
@@ -398,7 +407,7 @@ def gen_W(tier, seed, info):
                 yield "W n0.0 n1.0 %s b%d.e.0.0.%s x0 f0 f0" % (" ".join(keep), where, body)
     info["exhaustive"] = True
     info["exhaustive_scope"] = ("W: 2 tree shapes (two siblings; parent+child) x every sequence of <= %d calls over %s; "
-                                "16 flag combinations x 3 depths x 6 teardown orders; 4 restack kinds x 2 targets in a 3-level chain x 10 teardown orders; self-unbinding handlers x 5 nested dispatches x 3 positions x 3 event kinds; leaf handlers destroying an ancestor (focus/steal x kept references x 7 bodies x key/mouse); drag sources whose DRAG_OUTSIDE/DRAG_STOP handlers release themselves and their ancestors (2 depths x 8-13 bodies x 3 kept references x 3 event sequences)" % (L, " ".join(alpha)))
+                                "16 flag combinations x 3 depths x 6 teardown orders; 4 restack kinds x 2 targets in a 3-level chain x 10 teardown orders; self-unbinding handlers x 5 nested dispatches x 3 positions x 3 event kinds; leaf handlers destroying an ancestor (focus/steal x kept references x 7 bodies x key/mouse); drag sources whose DRAG_OUTSIDE/DRAG_STOP handlers release themselves and their ancestors (2 depths x 8-13 bodies x 3 kept references x 3 event sequences); window pens: every sequence of <= 3 pen calls over two windows x 2 teardowns; EXPOSE/FOCUS/GEOMCHANGE handlers on each of 4 windows (root > 1 > 2, root > 3) releasing / closing / closing+releasing each of the 4 windows, with and without an extra reference, self-unbinding or not, x 2-3 trigger sequences per kind; the focus already held when the handler is bound (4 prefixes x 4 x 4 x 3 bodies x 3 runs); two handlers of one kind on a window; nested dispatch from a self-unbound handler (10 bodies x 2 places x 3 kinds); handlers releasing their own window and its ancestors in every order (7 kind/trigger pairs x 2 depths x 15 orders x 3 kept references); terminal resize with root geomchange handlers (8 bodies x 2 x 2); expose handlers releasing the root during flush (3 places x 5 bodies x 2)" % (L, " ".join(alpha)))
     # --- random well-formed lifecycles, without and with events
     n_wf = 2500 if tier == "quick" else 60000
     for _ in range(n_wf):
